@@ -844,6 +844,10 @@ class Client:
                     return []
                 break
 
+            # Stop if for some reason the list was empty
+            if not response.information:
+                break
+
             for attribute_handle, attribute_uuid in response.information:
                 if attribute_handle < starting_handle:
                     # Something's not right
